@@ -234,7 +234,7 @@ fn huge_strings(rep: &mut Report, rng: &mut Rng, max: usize) {
 }
 
 /// f32 through to_value / from_value: the value route is exact for every bit pattern.
-fn f32_block(rep: &mut Report, lo: u64, hi: u64) {
+pub fn f32_block(rep: &mut Report, lo: u64, hi: u64, prop: &str) {
     let mut bad: Option<(u32, String)> = None;
     for bits in lo..hi {
         let x = f32::from_bits(bits as u32);
@@ -265,7 +265,7 @@ fn f32_block(rep: &mut Report, lo: u64, hi: u64) {
     rep.count_n("f32-bit-patterns-enumerated", hi - lo);
     if let Some((bits, detail)) = bad {
         let class = if f32::from_bits(bits).is_nan() { "nan" } else if !f32::from_bits(bits).is_finite() { "infinite" } else if f32::from_bits(bits).is_normal() { "normal" } else { "subnormal-or-zero" };
-        rep.violation("f32", format!("C04:f32-value-route-differs:{}", class), detail, json!({"bits": bits}));
+        rep.violation("f32", format!("{}:f32-value-route-differs:{}", prop, class), detail, json!({"bits": bits}));
     }
 }
 
@@ -285,7 +285,7 @@ pub fn sets(ctx: &Ctx) -> Vec<CaseSet> {
             f32_blocks,
             Box::new(move |rep, _rng, case| {
                 let lo = if thorough { case * f32_block_len } else { case * (1u64 << 24) + f32_offset };
-                f32_block(rep, lo, lo + f32_block_len);
+                f32_block(rep, lo, lo + f32_block_len, "C04");
             }),
         ),
         CaseSet::new("borrowed-targets", ctx.size(2_000, 100_000), Box::new(move |rep, rng, _| borrowed_targets(rep, rng))),
